@@ -394,7 +394,19 @@ HDR_ARGS = ["x", "a\nb", "''y''", " ", "a\n\nb", "\n"]
 HDR_LEVEL_KINDS = {1: NodeKind.LEVEL1, 2: NodeKind.LEVEL2, 3: NodeKind.LEVEL3, 4: NodeKind.LEVEL4, 5: NodeKind.LEVEL5, 6: NodeKind.LEVEL6}
 
 
-def hdrarg_step(kind_i: int, ai: int, level: int, italic: bool) -> bool:
+def hdrarg_step(kind_i, ai, level, italic) -> bool:
+    """the solver picks the case; the parser functions run untraced (concrete tokens)"""
+    from crosshair.tracers import NoTracing, is_tracing
+
+    if is_tracing():
+        kind_i, ai, level = _pick_tw(kind_i, 4), _pick_tw(ai, len(HDR_ARGS)), 1 + _pick_tw(level - 1, 6)
+        italic = True if italic else False
+        with NoTracing():
+            return _hdrarg_step(kind_i, ai, level, italic)
+    return _hdrarg_step(kind_i, ai, level, italic)
+
+
+def _hdrarg_step(kind_i: int, ai: int, level: int, italic: bool) -> bool:
     """`== <saved construct> ==`: the tokenizer emits the heading's start and end token for one (encoded) line; whatever the
     construct's arguments contain - line breaks included - the end token finds its start token: the LEVELn node gets exactly
     one argument (its title, the documented shape) and stays the open section."""
